@@ -17,6 +17,7 @@ AnnOf(e) == [style |-> e.style, dateonly |-> e.dateonly, Y |-> e.Y, M |-> e.M, D
              fsep |-> e.fsep, frac |-> e.frac, zlit |-> e.zlit, zsign |-> e.zsign, zh |-> e.zh, zm |-> e.zm, zcolon |-> e.zcolon, nowd |-> e.nowd]
 
 TInitEv == Ev.e = "Init" /\ Ev.how \in {"millis", "secs"} /\ Init(Ev.d, Ev.s, Ev.ms, Ev)
+TInitU == Ev.e = "InitU" /\ InitU(Ev.d, Ev.s, Ev.us, Ev)
 TFormat == Ev.e = "Format" /\ Format(Ev.fmt, Ev.short = 1, Ev.cap, Ev.pre, Ev.rc, Ev.out)
 TParseLast == Ev.e = "ParseLast" /\ ParseBack(Ev.fmt, Ev.text, Ev.rc, Ev)
 TParseText == Ev.e = "ParseText" /\ ParseText(Ev.fmt, AnnOf(Ev), Ev.text, Ev.rc, Ev)
@@ -38,7 +39,7 @@ Dev_Rfc822DateOnly ==
     /\ cur' = NoCur /\ UNCHANGED last
 
 TNext == /\ l <= TraceLen /\ l' = l + 1
-         /\ \/ TReset \/ TInitEv \/ TFormat \/ TParseLast \/ TParseText \/ TEnd \/ Dev_Rfc822DateOnly
+         /\ \/ TReset \/ TInitEv \/ TInitU \/ TFormat \/ TParseLast \/ TParseText \/ TEnd \/ Dev_Rfc822DateOnly
 TInit == l = 1 /\ DInit
 TSpec == TInit /\ [][TNext]_<<l, cur, last>>
 =============================================================================
